@@ -45,7 +45,7 @@ Proof.
   destruct (K cs Hc) as (_ & [(_ & D)|D]); [left; exact D|right]. rewrite reachc_cfg in D. exact D.
 Qed.
 
-Definition w_cfg : config := mkcfg false false false 10000 false.
+Definition w_cfg : config := mkcfg false false false false 10000 false.
 Definition w_labels : list label :=
   [StartCompletion 0; Tick; CYield 0 [97; 98] (-2); CompleteNext 1 false; CEnd 0].
 
